@@ -146,8 +146,9 @@ class InterceptingLLUDPProxyProtocol(UDPProxyProtocol):
         )
 
         # This message is owned by an async handler, drop it so it doesn't get
-        # sent with the normal flow.
-        if message.queued:
+        # sent with the normal flow. Someone else (the command channel, an RLV
+        # handler, another addon) may have already dropped it for us.
+        if message.queued and not message.finalized:
             region.circuit.drop_message(message)
 
         # Shouldn't mutate the message past this point, so log it now.
